@@ -631,21 +631,35 @@ class Interp:
             raise PyRaise(exc)
         if t is ast.Try:
             try:
-                self.exec_block(st.body, env, m)
-            except PyRaise as pr:
-                for h in st.handlers:
-                    if h.type is None or self.exc_match(pr.exc, self.resolve(self.eval(h.type, env, m))):
-                        if h.name:
-                            env.vars[h.name] = pr.exc
-                        self.trace.append((self.fstack[-1] if self.fstack else m.name, h.lineno, "except"))
-                        self.exec_block(h.body, env, m)
-                        break
+                try:
+                    self.exec_block(st.body, env, m)
+                except PyRaise as pr:
+                    for h in st.handlers:
+                        if h.type is None or self.exc_match(pr.exc, self.resolve(self.eval(h.type, env, m))):
+                            if h.name:
+                                env.vars[h.name] = pr.exc
+                            self.trace.append((self.fstack[-1] if self.fstack else m.name, h.lineno, "except"))
+                            self.exec_block(h.body, env, m)
+                            break
+                    else:
+                        raise
                 else:
-                    raise
-            else:
-                self.exec_block(st.orelse, env, m)
-            if st.finalbody:
-                raise AnalysisError("finally")
+                    self.exec_block(st.orelse, env, m)
+            finally:
+                if st.finalbody:
+                    self.exec_block(st.finalbody, env, m)
+            return
+        if t is ast.Global or t is ast.Nonlocal:
+            raise AnalysisError(f"{t.__name__} statement at {m.name}:{st.lineno}")
+        if t is ast.Delete:
+            for tg in st.targets:
+                if isinstance(tg, ast.Name):
+                    env.vars.pop(tg.id, None)
+                elif isinstance(tg, ast.Subscript):
+                    obj = self.eval(tg.value, env, m)
+                    del obj[self.eval(tg.slice, env, m)]
+                else:
+                    raise AnalysisError("del target")
             return
         if t is ast.ImportFrom:
             self.do_importfrom(st, m, env.vars)
@@ -1195,6 +1209,14 @@ class Interp:
     def e_GeneratorExp(self, n, env, m):
         return AIter(self.e_ListComp(n, env, m))
 
+    def e_DictComp(self, n, env, m):
+        out = {}
+
+        def emit(e):
+            out[self.eval(n.key, e, m)] = self.eval(n.value, e, m)
+        self._comp(n.generators, env, m, emit)
+        return out
+
     def e_SetComp(self, n, env, m):
         return self.mkset(self.e_ListComp(n, env, m))
 
@@ -1207,7 +1229,15 @@ class Interp:
             if isinstance(v, ast.Constant):
                 out.append(v.value)
             else:
-                out.append(self.to_str(self.eval(v.value, env, m)))
+                val = self.eval(v.value, env, m)
+                if v.conversion == 114:  # !r
+                    out.append(repr(val) if isinstance(val, (str, int, bool, type(None), tuple, list)) else "<" + self.to_str(val) + ">")
+                else:
+                    txt = self.to_str(val)
+                    if v.format_spec is not None:
+                        spec = self.e_JoinedStr(v.format_spec, env, m)
+                        txt = format(val, spec) if isinstance(val, (int, float, str)) else txt
+                    out.append(txt)
         return "".join(out)
 
     def to_str(self, v):
